@@ -290,7 +290,7 @@ func c10Stalled(kind, end string, rep *Report) (viol, detail string) {
 func c10(env *Env, rep *Report) {
 	ins := c10Inputs()
 	rep.Rule = fmt.Sprintf("(a) %d hostile packet inputs (every type in {0..0x12,0xFF,0x100,0xFFFF} x header length fields {0..16,true-1,true,true+1,4096,0xFFFF,2^31-1,2^31,2^32-1}; headers truncated at 0..7 bytes; every body truncation of each request; inner length fields {0,1,true-1,true,true+1,0x7FFF,0xFFFF}; field masks; invalid UTF-16) x 6 protocol phases (after 0..5 packets of the canonical session) x transports {processor, websocket, legacy}; "+
-		"(c) NTLM messages against the real verifier; (d) KDC-proxy bodies against the real handler; (e) every sequence of up to 3 requests from {RDG_IN_DATA, RDG_OUT_DATA, websocket upgrade, GET, unknown method} x connection ids {X, Y, none} against the real handler; (b) HTTP-level inputs against the real rdpgw binary (see the part reports); (i) every end-of-tunnel fault scenario of C11 under the default schedule, each also against a gateway configured with an idle timeout, plus clients that keep the connection and fall silent after each stage (virtual time: every timer the gateway arms fires, its function in a thread of its own), judged for panics; (h) a client that stopped reading while its host keeps writing (gateway writes block), then a bad header / out-of-order packet / channel close / nothing: another client is still served and nothing is left behind; (g) a tour of the real binary under 6 authentication configurations: login, download, token introspection, every registered route, and a complete session over each transport with the callbacks as main() wires them. Oracle for (a): no panic in any thread, a second client still completes a handshake afterwards, and after all clients left no gateway goroutine remains. distinct_nontrivial = distinct (input, phase, transport) cases.", len(ins))
+		"(c) NTLM messages against the real verifier; (d) KDC-proxy bodies against the real handler; (e) every sequence of up to 3 requests from {RDG_IN_DATA, RDG_OUT_DATA, websocket upgrade, GET, unknown method} x connection ids {X, Y, none} against the real handler; (b) HTTP-level inputs against the real rdpgw binary (see the part reports); (i) every end-of-tunnel fault scenario of C11 under the default schedule, each also against a gateway configured with an idle timeout, plus clients that keep the connection and fall silent after each stage (virtual time: every timer the gateway arms fires, its function in a thread of its own), judged for panics; (j) a packet kept incomplete over 10 / 200 / 2000 fragments (empty websocket messages; one byte at a time of a packet announced as nearly 4 GiB): the depth of the reader's call stack must not grow with the fragments; (h) a client that stopped reading while its host keeps writing (gateway writes block), then a bad header / out-of-order packet / channel close / nothing: another client is still served and nothing is left behind; (g) a tour of the real binary under 6 authentication configurations: login, download, token introspection, every registered route, and a complete session over each transport with the callbacks as main() wires them. Oracle for (a): no panic in any thread, a second client still completes a handshake afterwards, and after all clients left no gateway goroutine remains. distinct_nontrivial = distinct (input, phase, transport) cases.", len(ins))
 	rep.Assumptions = append(rep.Assumptions, "each hostile input is one transport read (segmentations are C08's); table cookie checker")
 	if env.Replay != nil {
 		rp := env.Replay
@@ -400,6 +400,9 @@ func c10(env *Env, rep *Report) {
 			res.X.Finish()
 			rep.outcome("i fault-point panics=" + fmt.Sprint(len(res.X.Panics()) > 0))
 		}
+	}
+	if (env.Part == "" || env.Part == "j") && env.Shard == 1%env.NShards {
+		distinct += c10Fragments(rep)
 	}
 	if (env.Part == "" || env.Part == "h") && env.Shard == 0 {
 		for _, kind := range []string{"ws", "legacy"} {
